@@ -14,6 +14,12 @@ Tie of Model/Xray.lean to xsf.py / cromermann.py:
   judged by the exact natural mass / actual mass of the composition the formula then has;
   every symbol/charge form of `fxrayatstol` that names an atom or ion with coefficients is judged by the
   coefficients of the atom/ion named (an explicit charge, 0 included, overrides the suffix).
+  one (compound, density= | natural_density=, beam) through every route (`stream_routes`: the package-level
+  `periodictable.xray_sld`, `xsf.xray_sld`, `xsf.xray_sld_from_atoms`, the Formula method; Formula / string / atoms
+  dict) judged by the exact recomputation and by the all-natural compound at the same natural density;
+  what `scattering_factors` / `Xray.sld` return is the caller's (`stream_owned`): asked on the atom's own energy
+  grid (and sub-grids, lists, by wavelength), edited in place, then every later answer for that atom is judged by
+  the exact interpolation oracle and the table by the file;
 * direct oracle (exact `Fraction` interpolation on the raw rows, docstring equations with exact
   constants, `Decimal` for f0) evaluated on every case: a failure there is a violation with replay.
 """
@@ -795,6 +801,238 @@ def stream_objects(run: Run, c: Ctx, n):
         core.PRIVATE_TABLES.pop("c05-private", None)
 
 
+# --------------------------------------------------------------------------- stream 2c: every route to the SLD
+
+def gen_route_case(rng, c: Ctx, idx):
+    """one (compound, density keyword, beam) asked through every route: the package-level periodictable.xray_sld,
+    periodictable.xsf.xray_sld, xsf.xray_sld_from_atoms and the Formula method (plain data: replayable)"""
+    e = math.exp(rng.uniform(math.log(0.05), math.log(29.0)))
+    case = dict(route_case=True, first=gen_object_struct(rng, c, rng.random() < 0.8),
+                mode=rng.choice(["density", "natural_density", "natural_density", "natural_density"]),
+                value=round(math.exp(rng.uniform(math.log(0.05), math.log(22.0))), 4), energy=e,
+                by_wavelength=rng.random() < 0.3, vector=rng.random() < 0.25,
+                target=rng.choice(["formula", "formula", "string", "atoms"]))
+    fixed = [([(2, (1, 2, 0)), (1, (8, 0, 0))], "natural_density", 1.0, "string"),
+             ([(6, (6, 0, 0)), (6, (1, 2, 0))], "natural_density", 0.8765, "formula"),
+             ([(1, (3, 6, 0)), (1, (9, 0, 0))], "natural_density", 2.635, "atoms"),
+             ([(1, (28, 58, 0)), (1, (8, 0, 0))], "density", 6.67, "formula")]
+    if idx < len(fixed):
+        case.update(first=fixed[idx][0], mode=fixed[idx][1], value=fixed[idx][2], target=fixed[idx][3], energy=8.0,
+                    by_wavelength=idx == 1, vector=False)
+    return case
+
+
+def run_route_case(c: Ctx, case):
+    """[(what, details, clause)]: every route must return r_e*N_A*density/mass*sum(n f) with density = the density given
+    / natural density * mass / natural mass, and - at equal natural density - what the all-natural compound returns"""
+    np = c.np
+    pt = c.pt
+    from periodictable import xsf
+    from periodictable.formulas import formula
+    bad = []
+    struct = _keystruct(case["first"])
+    mode, v = case["mode"], case["value"]
+    e = case["energy"]
+    w = xd.energy_of_wavelength(e, c.const)
+    by_w = case["by_wavelength"]
+    ee = xd.energy_of_wavelength(w, c.const) if by_w else e
+    rel = 2e-8 if by_w else 2e-9
+    if case["vector"]:
+        beam = dict(wavelength=np.array([w, 0.9 * w])) if by_w else dict(energy=np.array([e, 1.1 * e]))
+    else:
+        beam = dict(wavelength=w) if by_w else dict(energy=e)
+    M, Mn = exact_masses(struct, c.tbl)
+    dens = Fraction(v) if mode == "density" else Fraction(v) * M / Mn
+    want = oracle_sld(c, struct, dens, ee)
+    f = formula(pyside.struct_objs(struct, c.tbl))
+    target = f
+    if case["target"] == "string":
+        try:
+            if formula(str(f)) == f:
+                target = str(f)
+        except Exception:  # noqa
+            target = f
+    elif case["target"] == "atoms":
+        target = dict(f.atoms)
+    kw = {mode: v}
+    natural = formula(pyside.struct_objs([(float(n_), (k[0], 0, k[2])) for k, n_ in pyside.flat_counts(struct).items()], c.tbl))
+    routes = [("periodictable.xray_sld", lambda: pt.xray_sld(target, **dict(kw, **beam))),
+              ("periodictable.xsf.xray_sld", lambda: xsf.xray_sld(target, **dict(kw, **beam))),
+              ("periodictable.xsf.xray_sld_from_atoms", lambda: xsf.xray_sld_from_atoms(target, **dict(kw, **beam))),
+              ("Formula(..., %s=).xray_sld" % mode, lambda: formula(pyside.struct_objs(struct, c.tbl), **kw).xray_sld(**beam))]
+    if mode == "natural_density":
+        routes.append(("periodictable.xray_sld of the all-natural compound", lambda: pt.xray_sld(natural, **dict(kw, **beam))))
+    results = {}
+    for name, fn in routes:
+        try:
+            r = fn()
+            got = (float(np.ravel(r[0])[0]), float(np.ravel(r[1])[0]))
+        except Exception as ex:  # noqa
+            bad.append(("%s(<%s>, %s=, %s=) raised %s: %s" % (name, case["target"], mode, "wavelength" if by_w else "energy",
+                                                              type(ex).__name__, str(ex)[:100]), dict(route=name), "raises"))
+            continue
+        results[name] = got
+        sc = 2 if "natural" in name else 1
+        if not (xd.close_scaled(got[0], want[0], sc * want[2], rel=rel) and xd.close_scaled(got[1], want[1], sc * want[3], rel=rel)):
+            if "all-natural" in name:
+                what = ("xray_sld at equal natural density depends on the isotopes present: the all-natural compound through "
+                        "periodictable.xray_sld differs from r_e*N_A*density/mass*sum(n*f) of the compound with its isotopes")
+            else:
+                what = ("%s(<%s>, %s=%r) is not r_e*N_A*density/mass*sum(n*f)%s" % (
+                    name, case["target"], mode, v, " at density = natural density * mass / natural mass" if mode != "density" else ""))
+            bad.append((what, dict(route=name, got=list(got), expected=list(want[:2]), density_expected=float(dens)),
+                        "isotopes" if mode != "density" else "sld"))
+    return bad
+
+
+def stream_routes(run: Run, c: Ctx, n):
+    rng = run.rng
+    for idx in range(n):
+        case = gen_route_case(rng, c, idx)
+        has_iso = any(k[1] for k in pyside.flat_counts(_keystruct(case["first"])))
+        run.count(key=("route", repr(case)), nontrivial=True,
+                  tag="route:%s:%s:%s" % (case["mode"], case["target"], "isotopes" if has_iso else "natural"),
+                  sample=repr(case)[:300] if idx < 2 else None)
+        try:
+            bad = run_route_case(c, case)
+        except InfraError:
+            raise
+        except Exception as ex:  # noqa
+            bad = [("asking one SLD through every route raised %s: %s" % (type(ex).__name__, str(ex)[:120]), {}, "raises")]
+        for what, info, clause in bad:
+            run.violation(what, dict(case, **info), clause=clause)
+
+
+# --------------------------------------------------------------------------- stream 2d: results belong to the caller
+
+EDITS = ["nan_to_num", "scale", "fill", "negate", "sort"]
+
+
+def gen_owned_case(rng, c: Ctx, idx, keys):
+    """(atom, argument of the first call, in-place edit of what it returned): afterwards every answer for that atom
+    is still the interpolation of the tabulated values"""
+    key = keys[idx % len(keys)]
+    arg = ["own-grid", "own-grid", "own-grid-list", "read-grid", "grid-by-wavelength", "sub-grid", "grid-plus-one",
+           "random-vector", "one-node"][(idx // len(keys) + idx) % 9] if idx >= len(keys) else "own-grid"
+    return dict(owned_case=True, atom=list(key), arg=arg, call=rng.choice(["scattering_factors", "scattering_factors", "sld"]),
+                edit=rng.choice(EDITS), probes=[math.exp(rng.uniform(math.log(0.011), math.log(29.0))) for _ in range(3)])
+
+
+def run_owned_case(c: Ctx, case):
+    np = c.np
+    bad = []
+    key = tuple(case["atom"])
+    t = c.tables[key[0]]
+    atom = pyside.atom_of(key, c.tbl)
+    xr = atom.xray
+    nd = c.tbl[key[0]].number_density
+    own = np.array(xr.sftable[0], dtype=float)      # the caller's own copy of the energies
+    arg = case["arg"]
+    kw = "energy"
+    if arg == "own-grid":
+        a = own
+    elif arg == "own-grid-list":
+        a = [float(x) for x in own]
+    elif arg == "read-grid":
+        a = np.array(t.kev)
+    elif arg == "grid-by-wavelength":
+        kw, a = "wavelength", np.array([xd.energy_of_wavelength(x, c.const) for x in t.kev])
+    elif arg == "sub-grid":
+        a = own[len(own) // 3: 2 * len(own) // 3].copy()
+    elif arg == "grid-plus-one":
+        a = np.append(own, 30.5)
+    elif arg == "one-node":
+        a = np.array([t.kev[len(t.kev) // 2]])
+    else:
+        a = np.array(sorted(case["probes"] + [0.02, 8.0]))
+    call = case["call"] if nd is not None else "scattering_factors"
+    fn = xr.scattering_factors if call == "scattering_factors" else xr.sld
+    given = np.array(a, dtype=float).copy()
+    r1, r2 = fn(**{kw: a})
+    first = (np.array(r1, dtype=float).copy(), np.array(r2, dtype=float).copy())
+    # the caller tidies up *its* result
+    edit = case["edit"]
+    try:
+        for r in (r1, r2):
+            if edit == "nan_to_num":
+                np.nan_to_num(r, copy=False)
+            elif edit == "scale":
+                r *= 1e3
+            elif edit == "fill":
+                r[...] = 0.0
+            elif edit == "negate":
+                np.negative(r, out=r)
+            else:
+                r[::-1].sort()
+    except ValueError as ex:
+        bad.append(("the arrays returned by %s(%s=<%s>) cannot be edited by the caller: %s" % (call, kw, arg, ex), {}, "raises"))
+    if not np.array_equal(np.array(a, dtype=float), given):
+        bad.append(("%s(%s=<%s>) / editing its result changed the argument array" % (call, kw, arg), {}, "scalar-vector"))
+    k = float(c.const["electron_radius"]) * nd * 1e-8 if nd is not None else None
+
+    def judge(e, f, what, sl=None, rel=1e-9):
+        (x1, s1), (x2, s2) = t.expected_both(e)
+        if not (xd.close_scaled(f[0], x1, s1, rel) and xd.close_scaled(f[1], x2, s2, rel)):
+            bad.append((what, dict(energy=e, got=[float(f[0]), float(f[1])], expected=[x1, x2]), "interpolation"))
+            return False
+        if sl is not None and not (xd.close_scaled(sl[0], k * x1, k * s1, rel) and xd.close_scaled(sl[1], k * x2, k * s2, rel)):
+            bad.append(("Xray.sld is not r_e*N*f after the caller edited the result of an earlier call in place",
+                        dict(energy=e, got=[float(sl[0]), float(sl[1])], expected=[k * x1, k * x2]), "element-sld"))
+            return False
+        return True
+    after = "after the caller edited, in place, the arrays an earlier %s(%s=<%s>) returned (%s)" % (call, kw, arg, edit)
+    # (1) scalar probes: below the first f1 datum, random, a node, a midpoint, the last node
+    j = len(t.kev) // 2
+    for e in [0.02, t.kev[0], t.kev[j], 0.5 * (t.kev[j] + t.kev[j + 1]), t.kev[-1]] + list(case["probes"]):
+        sl = xr.sld(energy=e) if nd is not None else None
+        if not judge(e, xr.scattering_factors(energy=e), "scattering factors are not the linear interpolation of the tabulated values " + after, sl):
+            return bad
+    # (2) the same question again: the same answer as the first time, and the oracle's at every entry
+    g1, g2 = fn(**{kw: a})
+    if not (np.array_equal(np.asarray(g1, dtype=float), first[0], equal_nan=True) and np.array_equal(np.asarray(g2, dtype=float), first[1], equal_nan=True)):
+        i = [i for i in range(len(first[0])) if not (xd.close_scaled(g1[i], first[0][i]) and xd.close_scaled(g2[i], first[1][i]))]
+        bad.append(("the same call gives another answer " + after,
+                    dict(index=i[:5], energy=[float(given[x]) for x in i[:5]], first=[[float(first[0][x]), float(first[1][x])] for x in i[:5]],
+                         second=[[float(g1[x]), float(g2[x])] for x in i[:5]]), "interpolation"))
+        return bad
+    if kw == "energy" and call == "scattering_factors":
+        for i in range(0, len(given), 7):
+            if not judge(float(given[i]), (g1[i], g2[i]), "scattering factors (vector call) are not the linear interpolation of the tabulated values " + after):
+                return bad
+    # (3) the table itself is what the file says
+    tab = xr.sftable
+    for col in (1, 2):
+        want = [NAN if (col == 1 and r[col] == -9999) else float(r[col]) for r in t.rows]
+        if len(tab[col]) != len(want) or not all(xd.close_scaled(x, y) for x, y in zip(tab[col], want)):
+            bad.append(("sftable column %d is no longer the tabulated values " % col + after, {}, "interpolation"))
+            break
+    return bad
+
+
+def stream_owned(run: Run, c: Ctx, n):
+    rng = run.rng
+    ions = xd.element_ions()
+    keys = [(z, 0, 0) for z in sorted(c.tables)]
+    for z in rng.sample(sorted(c.tables), 12):
+        el = c.tbl[z]
+        if ions[z]:
+            keys.append((z, 0, rng.choice(ions[z])))
+        if el.isotopes:
+            keys.append((z, rng.choice(el.isotopes), 0))
+    for idx in range(max(n, len(keys))):
+        case = gen_owned_case(rng, c, idx, keys)
+        run.count(key=("owned", repr(case)), nontrivial=True, tag="owned:%s:%s" % (case["arg"], case["edit"]),
+                  sample=repr(case)[:300] if idx < 2 else None)
+        try:
+            bad = run_owned_case(c, case)
+        except InfraError:
+            raise
+        except Exception as ex:  # noqa
+            bad = [("call, edit the result in place, call again raised %s: %s" % (type(ex).__name__, str(ex)[:120]), {}, "raises")]
+        for what, info, clause in bad:
+            run.violation(what, dict(case, **info), clause=clause)
+
+
 # --------------------------------------------------------------------------- stream 3: f0
 
 Q_GRID = [0.0, 1e-9, 1e-4, 0.5, 1.0, 4.0, 12.566370614359172, 30.0, 75.0, 75.39822368615503,
@@ -1053,6 +1291,8 @@ def run(run: Run) -> int:
     guarded(run, "f0", stream_f0, run, c, batch, 2 if quick else 150)
     guarded(run, "compounds", stream_compounds, run, c, batch, 2500 if quick else 300000)
     guarded(run, "Formula objects", stream_objects, run, c, 400 if quick else 20000)
+    guarded(run, "routes to the SLD", stream_routes, run, c, 300 if quick else 20000)
+    guarded(run, "results edited by the caller", stream_owned, run, c, 200 if quick else 5000)
     batch.run()
     run.exhaustive = False
     return run.finish(RULE, assumptions=[
@@ -1094,6 +1334,24 @@ def replay(data) -> int:
                     print("   code fails: %s\n      %s" % (what, info))
                 if not bad:
                     print("   code: every judgement of the scenario holds")
+                continue
+            if inp.get("route_case") or inp.get("owned_case"):
+                if inp.get("route_case"):
+                    case = {k: inp[k] for k in ("route_case", "first", "mode", "value", "energy", "by_wavelength", "vector", "target")}
+                    print("%s\n   one SLD asked through every route: %s" % (v.get("what"), case))
+                    fn = run_route_case
+                else:
+                    case = {k: inp[k] for k in ("owned_case", "atom", "arg", "call", "edit", "probes")}
+                    print("%s\n   call, edit the returned arrays in place, call again: %s" % (v.get("what"), case))
+                    fn = run_owned_case
+                try:
+                    bad = fn(c, case)
+                except Exception as ex:  # noqa
+                    bad = [("raised %s: %s" % (type(ex).__name__, ex), {}, "raises")]
+                for what, info, _ in bad:
+                    print("   code fails: %s\n      %s" % (what, info))
+                if not bad:
+                    print("   code: every judgement of the case holds")
                 continue
             if "symbol" in inp and "stol" in inp:
                 from periodictable import cromermann
